@@ -305,6 +305,161 @@ def r52b(ctx):
                     construct="treat_output: write_toml not dominated by sort_trajstate")
 
 
+def r58(ctx):
+    """The re-sort makes progress: the partner of a misplaced path is looked for in a column where
+    the misplaced path's *own* weight is zero, so the partner reaches strictly further than it
+    (otherwise two paths of equal reach are swapped back and forth for ever).
+
+    Decided by evaluating the expression that computes that column over the abstract weight row
+    of a plus path, `m` zeros (the minus columns, m = the offset >= 1), `k >= 1` non-zeros, then
+    zeros up to the ghost column (the staircase the scheduler maintains): the forms
+    `list(row[a:b]).index(0) + c`, `np.count_nonzero(row[a:b]) + c`, `np.argmax(row[a:b] == 0) + c`
+    (and int(...) around them) are evaluated symbolically in (m, k); the result must be the
+    position m + k of the first zero after the run. Anything else: cannot decide."""
+    from ..flow import deref
+    rid = "R-5.8"
+    tree = ctx.tree
+    f = tree.func(REPEX, "REPEX_state.sort_trajstate")
+    fl = flow_of(f)
+    cfg = fl.cfg
+    # the column: the index used in `self.state[:, COL]`
+    cols = [x for x in walk_local(f) if isinstance(x, ast.Subscript) and ast.unparse(x.value) == "self.state" and isinstance(x.slice, ast.Tuple) and len(x.slice.elts) == 2
+            and isinstance(x.slice.elts[0], ast.Slice) and x.slice.elts[0].lower is None and x.slice.elts[0].upper is None]
+    if not cols:
+        raise AnalysisError("R-5.8: the column `self.state[:, <col>]` in which the partner is looked for was not found")
+    col = cols[0].slice.elts[1]
+    at = cfg.node_of(cols[0])
+
+    def row_slice(e):
+        """self.state[ROW][a:b] / self.state[ROW, a:b]  ->  (a, b) as ints / None"""
+        if isinstance(e, ast.Subscript) and isinstance(e.slice, ast.Slice) and isinstance(e.value, ast.Subscript) and ast.unparse(e.value.value) == "self.state":
+            def c(x, d):
+                if x is None:
+                    return d
+                if isinstance(x, ast.Constant) and isinstance(x.value, int):
+                    return x.value
+                if isinstance(x, ast.UnaryOp) and isinstance(x.op, ast.USub) and isinstance(x.operand, ast.Constant):
+                    return -x.operand.value
+                raise AnalysisError("R-5.8: slice bound of the weight row is not a constant")
+            return c(e.slice.lower, 0), c(e.slice.upper, None)
+        return None
+
+    def ev(e, depth=0):
+        """value as (coefficient of m, coefficient of k, constant) for m = 1 is NOT assumed: symbolic in m and k"""
+        if depth > 8:
+            raise AnalysisError("R-5.8: expression too deep")
+        if isinstance(e, ast.Name):
+            e2, _ = deref(fl, e, at)
+            if e2 is e:
+                raise AnalysisError(f"R-5.8: `{e.id}` could not be resolved")
+            return ev(e2, depth + 1)
+        if isinstance(e, ast.Constant) and isinstance(e.value, int) and not isinstance(e.value, bool):
+            return (0, 0, e.value)
+        if isinstance(e, ast.BinOp) and isinstance(e.op, (ast.Add, ast.Sub)):
+            a, b = ev(e.left, depth + 1), ev(e.right, depth + 1)
+            sg = 1 if isinstance(e.op, ast.Add) else -1
+            return tuple(x + sg * y for x, y in zip(a, b))
+        if isinstance(e, ast.Call) and last_name(e) == "int" and len(e.args) == 1:
+            return ev(e.args[0], depth + 1)
+        if isinstance(e, ast.Attribute) and ast.unparse(e) == "self._offset":
+            return (1, 0, 0)
+        # position of the first zero in a slice:  list(ROW[a:b]).index(0)  /  np.argmax(ROW[a:b] == 0)
+        first_zero = None
+        if isinstance(e, ast.Call) and isinstance(e.func, ast.Attribute) and e.func.attr == "index" and len(e.args) == 1 and isinstance(e.args[0], ast.Constant) and e.args[0].value == 0:
+            inner = e.func.value
+            if isinstance(inner, ast.Call) and last_name(inner) in ("list", "tuple") and inner.args:
+                inner = inner.args[0]
+            first_zero = row_slice(inner)
+        if isinstance(e, ast.Call) and last_name(e) == "argmax" and e.args and isinstance(e.args[0], ast.Compare) and len(e.args[0].ops) == 1 and isinstance(e.args[0].ops[0], ast.Eq) \
+                and isinstance(e.args[0].comparators[0], ast.Constant) and e.args[0].comparators[0].value == 0:
+            first_zero = row_slice(e.args[0].left)
+        if first_zero is not None:
+            a, b = first_zero
+            if a < 0:
+                raise AnalysisError("R-5.8: negative slice start")
+            # row = m zeros, k non-zeros, zeros...; slice starts at a
+            # a < m: the first element of the slice is a minus-column zero -> 0 ; a == m (with m = 1 ... general: a >= m not decidable symbolically)
+            return ("first_zero", a)
+        if isinstance(e, ast.Call) and last_name(e) == "count_nonzero" and e.args:
+            rs = row_slice(e.args[0])
+            if rs is not None:
+                return ("count", rs[0])
+        raise AnalysisError(f"R-5.8: `{short(e, 50)}` is outside the forms the staircase evaluation knows (cannot decide)")
+
+    def resolve(v):
+        """bring ('first_zero', a) / ('count', a) (+ linear rest) to (cm, ck, c) under m = the number of
+        minus columns; the scheduler is always built with one minus ensemble (REPEX_state(config, minus=True)),
+        which is read from the constructor call sites"""
+        return v
+
+    # evaluate `col` = BASE (+/- constants);  BASE is one symbolic atom
+    def split(e, depth=0):
+        if isinstance(e, ast.Name):
+            e2, _ = deref(fl, e, at)
+            if e2 is e:
+                raise AnalysisError(f"R-5.8: `{e.id}` could not be resolved")
+            return split(e2, depth + 1)
+        if isinstance(e, ast.Call) and last_name(e) == "int" and len(e.args) == 1:
+            return split(e.args[0], depth + 1)
+        if isinstance(e, ast.BinOp) and isinstance(e.op, (ast.Add, ast.Sub)):
+            sg = 1 if isinstance(e.op, ast.Add) else -1
+            try:
+                c = ev(e.right, depth + 1)
+                if isinstance(c[0], int) and c[:2] == (0, 0):
+                    atom, k0 = split(e.left, depth + 1)
+                    return atom, k0 + sg * c[2]
+            except AnalysisError:
+                pass
+            c = ev(e.left, depth + 1)
+            if isinstance(c[0], int) and c[:2] == (0, 0) and sg == 1:
+                atom, k0 = split(e.right, depth + 1)
+                return atom, k0 + c[2]
+            raise AnalysisError("R-5.8: column expression is not <atom> + constant")
+        v = ev(e, depth + 1)
+        if isinstance(v[0], str):
+            return v, 0
+        raise AnalysisError("R-5.8: column expression has no position atom")
+
+    (kind, a), shift = split(col)
+    # number of minus columns m: every construction REPEX_state(config, minus=True) -> m = 1
+    m = None
+    for mm, q, g in tree.all_funcs():
+        for c in [x for x in walk_local(g) if isinstance(x, ast.Call) and last_name(x) == "REPEX_state"]:
+            mv = next((k.value for k in c.keywords if k.arg == "minus"), c.args[1] if len(c.args) > 1 else None)
+            val = int(bool(mv.value)) if isinstance(mv, ast.Constant) else None
+            if val is None or (m is not None and m != val):
+                raise AnalysisError("R-5.8: the number of minus ensembles is not the same constant at every construction of REPEX_state")
+            m = val
+    if m is None:
+        raise AnalysisError("R-5.8: no construction of REPEX_state found")
+    # value of the atom for a plus-path row: m zeros, k >= 1 non-zeros, then zeros
+    if kind == "first_zero":
+        # first zero of row[a:]: a < m -> the slice starts on a minus-column zero: position 0 of the slice, i.e. column a
+        if a < m:
+            val = ("const", a)
+        else:
+            if a > m:
+                raise AnalysisError("R-5.8: the slice starts inside the non-zero run (cannot decide)")
+            val = ("k", 0)  # k positions into the slice -> slice index k
+            # slice index k corresponds to full column a + k only after adding a
+    else:
+        # count of non-zeros in row[a:-1]: all k of them when a <= m
+        if a > m:
+            raise AnalysisError("R-5.8: the counted slice starts inside the non-zero run (cannot decide)")
+        val = ("k", 0)
+    if val[0] == "const":
+        got_txt = f"column {val[1] + shift}"
+        ok = False
+    else:
+        # column = k + shift ; required: m + k
+        ok = shift == m
+        got_txt = f"column k + {shift}" if shift else "column k"
+    if ok:
+        ctx.ok(rid, cols[0], f"for a path with weights [0]*{m} + [w]*k + [0...] the partner is looked for in column {m} + k, the first ensemble where the misplaced path itself has no weight: the partner reaches strictly further (progress of the re-sort)")
+    else:
+        ctx.bad(rid, cols[0], f"sort_trajstate looks for the partner of a misplaced path in `{short(col, 40)}` = {got_txt} for a path whose weight row is {m} minus-column zero(s), k non-zeros, then zeros; the first column where that path itself has no weight is {m} + k. In a column where its own weight is non-zero a partner of *equal* reach qualifies: the two are swapped back and forth and the re-sort never terminates", construct=f"sort_trajstate: partner column {short(col, 40)}")
+
+
 def run(ctx):
     ctx.rule("R-5.2", "the restart file written after a step is written after the re-sorting (commit is final)", floor=1)
     ctx.rule("R-5.4", "in-flight jobs are persisted in the ensemble-index unit that the restart reads back (shared with C08 R-8.7)", floor=4)
@@ -321,9 +476,15 @@ def run(ctx):
     from .shared import commit_is_final
     ctx.attempt(commit_is_final, ctx, "R-5.2")
     ctx.attempt(r52b, ctx)
+    ctx.rule("R-5.8", "progress of the re-sort: the partner column is the first one where the misplaced path itself has zero weight (symbolic evaluation over the staircase weight row)", floor=1)
+    ctx.attempt(r58, ctx)
 
 
 VARIANTS = [
+    B("c05-partner-column-by-count", REPEX, "            zero_idx = list(self.state[ens_idx][1:-1]).index(0) + 1", "            zero_idx = int(np.count_nonzero(self.state[ens_idx][:-1]))", "R-5.8", control=True, why="seeded C05_g"),
+    B("c05-partner-column-shift-dropped", REPEX, "            zero_idx = list(self.state[ens_idx][1:-1]).index(0) + 1", "            zero_idx = list(self.state[ens_idx][1:-1]).index(0)", "R-5.8"),
+    B("c05-partner-column-from-minus-column", REPEX, "            zero_idx = list(self.state[ens_idx][1:-1]).index(0) + 1", "            zero_idx = list(self.state[ens_idx][:-1]).index(0) + 1", "R-5.8"),
+    K("c05-keep-partner-column-by-count-shifted", REPEX, "            zero_idx = list(self.state[ens_idx][1:-1]).index(0) + 1", "            zero_idx = int(np.count_nonzero(self.state[ens_idx][:-1])) + 1"),
     B("c05-sort-only-when-accepted", REPEX, '            write_to_pathens(self, md_items["pnum_old"])\n\n        self.sort_trajstate()\n', '            write_to_pathens(self, md_items["pnum_old"])\n            self.sort_trajstate()\n\n', "R-5.2", why="seeded C05_d"),
     K("c05-keep-sort-busy-renamed", REPEX, "            locks = self.locked_paths()\n            zero_idx", "            busy = self.locked_paths()\n            zero_idx", also=[(REPEX, "                j if self._trajs[i].path_number not in locks else 0\n", "                j if self._trajs[i].path_number not in busy else 0\n")]),
     B("c05-sort-drops-last-busy-path", REPEX, "            locks = self.locked_paths()\n            zero_idx", "            locks = self.locked_paths()[:-1]\n            zero_idx", "R-5.6", control=True, why="seeded C03_d"),
